@@ -73,9 +73,9 @@ where
     D: serde::Deserializer<'de>,
 {
     let s: &'de str = Deserialize::deserialize(deserializer)?;
-    // String::from(s) could panic and is not really infallibe.  It is removed in heapless 0.8.
-    #[allow(clippy::unnecessary_fallible_conversions)]
-    match String::try_from(s) {
+    // String::from(s) panics if s is too long, and String::try_from(s) resolves to it through the
+    // blanket TryFrom impl.  FromStr is the fallible conversion in heapless 0.7.
+    match s.parse::<String<L>>() {
         Ok(string) => Ok(Some(string)),
         Err(_err) => {
             info_now!("skipping field: {:?}", _err);
